@@ -31,7 +31,7 @@ PROBE_FLOORS = {"history_replay_with_latency": 100, "latent_last_before_first_st
                 "single_event_day": 20, "empty_timestep_skipped": 19, "episode_after_observer_crash": 60,
                 "custom_events_loaded_from_table": 200, "episode_on_a_second_environment_of_the_transmitter": 100,
                 "events_added_before_second_environment": 50, "second_environment_with_another_latency": 35, "quotes_loaded_with_add_prices": 300,
-                "price_table_with_repeated_timestamps": 60, "environment_construction_refused": 50}
+                "price_table_with_repeated_timestamps": 60, "environment_construction_refused": 50, "observers_with_inherited_callbacks": 170}
 
 PROFILE = {
     "n_min": 2, "n_max": 10, "n_long": 30, "p_long": 0.08, "c_min": 1, "c_max": 3, "p_bar": 0.8, "extras_max": 12,
